@@ -262,6 +262,6 @@ func crashOnce(x *vt.Ctx, wp **world.World, c CrashCase, s0 snapshot, steps []wo
 	return nil
 }
 
-var propC14 = vt.Prop[CrashCase]{ID: "C14", Test: "TestC14", Gen: genC14, Run: runC14, Retry: timeoutFinding}
+var propC14 = vt.Prop[CrashCase]{ID: "C14", Test: "TestC14", Gen: genC14, Run: runC14, Retry: reproducibleOnly}
 
 func TestC14(t *testing.T) { topT = t; propC14.Check(t) }
